@@ -355,6 +355,11 @@ func (h *Handler) HandleDeleteFile(ctx *Context, path string) error {
 		return ErrWriteForbidden
 	}
 
+	if stat, err := h.Fs.Stat(path); err == nil && stat.IsDir() {
+		log.WarnContext(ctx, "Remove file failed: is a directory")
+		return fmt.Errorf("%s is a directory", path)
+	}
+
 	if err := h.Fs.Remove(path); err != nil {
 		log.WarnContext(ctx, "Remove file failed", logutil.ErrorAttr(err))
 		return err
@@ -387,6 +392,11 @@ func (h *Handler) HandleRmdir(ctx *Context, path string) error {
 	if !h.AllowWrite {
 		log.WarnContext(ctx, "Modifying operation forbidden", slog.String("op", "rmdir"))
 		return ErrWriteForbidden
+	}
+
+	if stat, err := h.Fs.Stat(path); err == nil && !stat.IsDir() {
+		log.WarnContext(ctx, "Remove directory failed: not a directory")
+		return fmt.Errorf("%s is not a directory", path)
 	}
 
 	if err := h.Fs.Remove(path); err != nil {
